@@ -134,6 +134,13 @@ class Gen:
                 self.tags.add('multi-line')
                 if len(cuts) > 1:
                     self.tags.add('multi-break')
+        if s and s[0] not in ' \t' and s[-1] not in ' \t' and text == s.replace('"', '""') and self.rng.random() < 0.06:
+            # the literal begins (or ends) with a line break: an empty first (last) line, whose neighbour loses its indentation
+            if self.rng.random() < 0.6:
+                text = self.rng.choice(['', ' ', '\t']) + self.rng.choice(['\n', '\r\n']) + self.rng.choice(['', '    ', '\t']) + text
+            else:
+                text = text + self.rng.choice(['', '  ']) + self.rng.choice(['\n', '\r\n']) + self.rng.choice(['', '   '])
+            self.tags.add('edge-line-break')
         return st, '"%s"' % text, ('str', s)
 
     def g_bits(self, depth):
@@ -148,7 +155,9 @@ class Gen:
 
     def g_nbits(self, depth):
         t = self.fresh('Nb')
-        pos = sorted(self.rng.sample(range(0, 16), self.rng.randint(1, 6)))
+        pos = self.rng.sample(range(0, 16), self.rng.randint(1, 6))
+        if self.rng.random() < 0.4:
+            pos = sorted(pos)                     # otherwise the named bits are declared in any order: the highest need not be the last
         names = {'bb%d' % p: p for p in pos}
         self.defs.append('%s ::= BIT STRING { %s }' % (t, ', '.join('%s(%d)' % kv for kv in names.items())))
         chosen = [n for n in names if self.rng.random() < 0.5]
